@@ -96,6 +96,11 @@ theorem encodeParam_obj_bad (o : Obj) (ho : o.ok) (hint : o.isInt) (values : Lis
       rotate_left
       · simp [lookupV, hl, Obj.toParam, encodeParam, encodeDop, bind, run_bind, run_modifyS, run_raise]
         rfl
+    | dtc c =>
+      refine ⟨.encode, ?_, ?_, Or.inl rfl⟩
+      rotate_left
+      · simp [lookupV, hl, Obj.toParam, encodeParam, encodeDop, bind, run_bind, run_modifyS, run_raise]
+        rfl
     | atom a =>
       simp only at hp
       have hacc : o.accepts a = false := by
